@@ -21,7 +21,9 @@ let int_of_n (n : coq_N) : int = Int64.to_int (int64_of_n n)
 let string_of_n (n : coq_N) : string = Printf.sprintf "%Lu" (int64_of_n n)
 let n_of_string (s : string) : coq_N = n_of_int64 (Int64.of_string ("0u" ^ s))
 
-let rec nat_of_int (x : int) : Datatypes.nat = if x <= 0 then Datatypes.O else Datatypes.S (nat_of_int (x - 1))
+let nat_of_int (x : int) : Datatypes.nat =
+  let rec go n acc = if n <= 0 then acc else go (n - 1) (Datatypes.S acc) in
+  go x Datatypes.O
 
 (* ---- token stream over one line ---- *)
 type toks = { mutable rest : string list }
